@@ -224,6 +224,9 @@ def evaluate(case):
     spec = case
     ncls = len(spec["classes"])
     exps = [S.expected(spec, i) for i in range(ncls)]
+    if any(e.get("error") == "outside-domain" for e in exps):
+        ev.skipped = "dtype_kwargs-without-parametrised-annotation"
+        return ev
     ns = {"__name__": "c16_generated"}
     exec(compile(S.PRELUDE[backend], "<c16-prelude>", "exec", dont_inherit=True), ns)  # noqa: S102
     from pandera.api.dataframe import model as _model
@@ -283,16 +286,28 @@ def evaluate(case):
                     ev.add("expected-SchemaInitError", {"class": name, "why": exp["why"], "tag": exp.get("tag"),
                                                         "observed": _o(o), "source": _src(src)})
                 continue
+            # the object-API schema with the same columns, checks and options
+            want, want_err = None, None
+            try:
+                want = S.build_expected(spec, exp, ns, cls, _expected_name(exp, o.get("value")))
+            except Exception as e:
+                import pandera.errors as pe
+
+                if not isinstance(e, (pe.SchemaInitError, pe.SchemaDefinitionError)):
+                    raise HarnessError(f"C16: object-API construction of the expected schema failed: "
+                                       f"{type(e).__name__}: {e}\n{_src(src)}")
+                want_err = type(e).__name__  # the options themselves are invalid (usage error)
+            if want_err is not None:
+                ev.labels.append("options-rejected-by-object-api")
+                if not (o["kind"] == "usage" and o.get("exc_type") == want_err):
+                    ev.add(f"object-api-raises-{want_err}-model-does-not", {"class": name, "observed": _o(o),
+                                                                            "source": _src(src)})
+                continue
             if o["kind"] != "ok":
                 ev.add(f"to_schema-raised:{o.get('exc_type', o['kind'])}",
                        {"class": name, "observed": _o(o), "source": _src(src)})
                 continue
             actual = o["value"]
-            try:
-                want = S.build_expected(spec, exp, ns, cls, _expected_name(exp, actual))
-            except Exception as e:
-                raise HarnessError(f"C16: object-API construction of the expected schema failed: {type(e).__name__}: {e}\n"
-                                   f"{_src(src)}")
             diffs = SM.diff(SM.summarize(want), first[i])
             kinds = sorted({k for k, _ in diffs})
             struct[i] = kinds
@@ -314,11 +329,20 @@ def evaluate(case):
 
         # ---------------------------------------------------------------- behaviour
         t = case["target"]
+        want = None
         if t in outcomes and outcomes[t]["kind"] == "ok" and "error" not in exps[t] and case["tables"]:
             name = spec["classes"][t]["name"]
             cls = ns[name]
             exp = exps[t]
-            want = S.build_expected(spec, exp, ns, cls, _expected_name(exp, outcomes[t]["value"]))
+            try:
+                want = S.build_expected(spec, exp, ns, cls, _expected_name(exp, outcomes[t]["value"]))
+            except Exception as e:
+                import pandera.errors as pe
+
+                if not isinstance(e, (pe.SchemaInitError, pe.SchemaDefinitionError)):
+                    raise HarnessError(f"C16: object-API construction failed for a compiled target: {type(e).__name__}: {e}")
+                want = None  # already reported above (object API rejects the options)
+        if want is not None and t in outcomes and outcomes[t]["kind"] == "ok" and "error" not in exps[t] and case["tables"]:
             want0 = SM.summarize(want)
             suffix = ("|struct=" + ",".join(struct.get(t, []))) if struct.get(t) else ""
             build = pd_frame if backend == "pandas" else pl_frame
@@ -506,18 +530,22 @@ def _explain(case, kind, detail):
         if a["metadata"] is not None and detail.get("observed") is None:
             return "C16/config-metadata-not-forwarded"
         return None
-    if kind == "to_schema-raised:ValueError":
-        if a["series"] and "Could not convert" in str((detail.get("observed") or {}).get("msg")):
+    obs = detail.get("observed") if isinstance(detail.get("observed"), dict) else {}
+    raised_kinds = kind in ("to_schema-raised:ValueError", "to_schema-raised:TypeError", "expected-SchemaInitError") \
+        or kind.startswith("object-api-raises-")
+    if raised_kinds and obs.get("exc_type") == "ValueError":
+        # the ValueError pre-empts whatever to_schema() should have done (incl. raising a usage error)
+        if (a["series"] and "Could not convert" in str(obs.get("msg"))
+                and str(obs.get("where")).endswith("pandas_engine.py:dtype")):
             return "C16/series-annotation-valueerror"
         return None
-    obs = detail.get("observed") or {}
-    if kind in ("expected-SchemaInitError", "to_schema-raised:TypeError") and obs.get("exc_type") == "TypeError":
+    if raised_kinds and obs.get("exc_type") == "TypeError":
         if a["regex_nonstr"] and str(obs.get("where")).endswith("_regex_filter"):
             return "C16/regex-check-nonstr-field-name"
         return None
     if kind == "expected-SchemaInitError":
         # the dangling target was one of the deduplicated references, so pandera never looks it up
-        if detail.get("tag") in a["multi_ref"] and (detail.get("observed") or {}).get("kind") == "ok":
+        if detail.get("tag") in a["multi_ref"] and obs.get("kind") == "ok":
             return "C16/multi-field-ref-dedup"
         return None
     if kind == "to_schema-raised:SchemaInitError":
